@@ -43,16 +43,19 @@ Inductive proof :=
 | PEq (pid : nat)
 | PComm (pid : nat) (commitment blinder_proof : K)
 | PVenc (pid : nat) (c1 c2 blinder_proof : K) (has_decryptable_part : bool)
-| POther (pid : nat).
+| POther (pid : nat)
+| PRev (pid : nat) (s_y fin : K).       (* accumulator membership proof (revocation / set membership): the element's
+                                           response, and the verifier's recomputed commitments as one opaque item *)
 
 Inductive stmt :=
 | SSig (sid : nat) (pk : pubkey) (requested : list nat)   (* requested = claim indices of the labels to disclose, ascending *)
 | SEq (sid : nat) (refs : list (nat * nat))               (* (signature statement id, claim index) *)
 | SComm (sid : nat) (ref : nat) (claim : nat) (gm gb : K)
-| SVenc (sid : nat) (ref : nat) (claim : nat) (gm ek : K) (allow_decryption : bool).
+| SVenc (sid : nat) (ref : nat) (claim : nat) (gm ek : K) (allow_decryption : bool)
+| SRev (sid : nat) (ref : nat) (claim : nat).          (* revocation / membership: the element is the claim at [claim] of [ref] *)
 
 Definition stmt_id (s : stmt) : nat :=
-  match s with SSig i _ _ => i | SEq i _ => i | SComm i _ _ _ _ => i | SVenc i _ _ _ _ _ => i end.
+  match s with SSig i _ _ => i | SEq i _ => i | SComm i _ _ _ _ => i | SVenc i _ _ _ _ _ => i | SRev i _ _ => i end.
 Definition is_sig (s : stmt) : bool := match s with SSig _ _ _ => true | _ => false end.
 
 (** reported disclosed claims, per signature statement id: (label, scalar of the reported claim).
@@ -252,11 +255,24 @@ Fixpoint pred_pass (S0 S : schema) (P : pres) : option (list K) :=
           end
       | _ => None
       end
+  | SRev sid ref claim :: t =>
+      match lookup sid (proofs P) with
+      | Some (PRev _ sy fin) =>
+          match sig_hidden S0 P ref with
+          | Some hid =>
+              match lookup claim hid with
+              | Some mp => option_map (app [fin]) (pred_pass S0 t P)
+              | None => None
+              end
+          | None => None
+          end
+      | _ => None
+      end
   end.
 
 (** every proof carries the id it is stored under *)
 Definition proof_id (p : proof) : nat :=
-  match p with PSig sp => sp_id sp | PEq i => i | PComm i _ _ => i | PVenc i _ _ _ _ => i | POther i => i end.
+  match p with PSig sp => sp_id sp | PEq i => i | PComm i _ _ => i | PVenc i _ _ _ _ => i | POther i => i | PRev i _ _ => i end.
 Definition ids_ok (P : pres) : bool := forallb (fun kp => Nat.eqb (proof_id (snd kp)) (fst kp)) (proofs P).
 
 Definition items (S : schema) (P : pres) : option (list K) :=
@@ -292,6 +308,13 @@ Definition post_one (S : schema) (P : pres) (s : stmt) : bool :=
       match lookup sid (proofs P) with
       | Some (PVenc _ _ _ _ has_part) => implb allow has_part
       | _ => false
+      end
+  | SRev sid ref claim =>
+      (* RevocationVerifier / MembershipVerifier::verify: the proof's element response is the signature proof's
+         response for the referenced claim *)
+      match lookup sid (proofs P), sig_hidden S P ref with
+      | Some (PRev _ sy _), Some hid => match lookup claim hid with Some mp => feqb K sy mp | None => false end
+      | _, _ => false
       end
   end.
 
